@@ -71,6 +71,8 @@ pub enum Probe {
     /// iteration over the contract's own storage
     OwnRange { start: Option<Binary>, end: Option<Binary>, desc: bool },
     OwnGet { key: Binary },
+    /// an arbitrary serialized QueryRequest (used by the routing engine)
+    RawQuery { request: Binary },
 }
 
 #[derive(Serialize, Deserialize, Clone, Debug, PartialEq)]
@@ -303,6 +305,10 @@ fn run_probe<Q: CustomQuery>(deps: &Deps<Q>, env: &Env, p: &Probe) -> String {
             format!("ok:{:?}", v)
         }
         Probe::OwnGet { key } => format!("ok:{:?}", deps.storage.get(key.as_slice()).map(|v| crate::core::hex(&v))),
+        Probe::RawQuery { request } => match deps.querier.raw_query(request.as_slice()) {
+            cosmwasm_std::SystemResult::Ok(cosmwasm_std::ContractResult::Ok(b)) => format!("ok:{}", crate::core::hex(&b)),
+            _ => "err".to_string(),
+        },
     }
 }
 
